@@ -410,3 +410,94 @@ fn c02_expr_must_fail() {
     assert!(false, "reachability witness");
 }
 }
+
+// ---------------------------------------------------------------------------------------------------
+// C04 / C02: one environment per object layer, shared by fields, computed field names and asserts
+// ---------------------------------------------------------------------------------------------------
+
+// @harness id=c04_expr_object_fields_share_env props=C04,C02 tier=attempt cap=1200
+// @desc one real call of Evaluator::do_expr on the object literal `{ f: v, [k]: w }`: a new object layer is opened whose base environment is the current one, and BOTH fields - the fixed one and the one with a computed name - are scheduled without an environment of their own (base_env = None), i.e. they will use the layer's single environment, so an object local used by several members is evaluated once; the computed name itself is evaluated in the enclosing environment; fields are added in source order
+// @bound one fixed-name and one computed-name field
+// @funcs Evaluator::do_expr (arm ir::Expr::Object)
+eval_stubs! {
+#[kani::proof]
+#[kani::unwind(6)]
+fn c04_expr_object_fields_share_env() {
+    let arena = Arena::new();
+    let mut program = bare_program(&arena);
+    let span = a_span(&mut program);
+    let f = program.str_interner.intern(&arena, "f");
+    let env = env_with(None, &[]);
+    let v: &ir::Expr<'_> = arena.alloc(ir::Expr::Null);
+    let w: &ir::Expr<'_> = arena.alloc(ir::Expr::Null);
+    let k: &ir::Expr<'_> = arena.alloc(ir::Expr::String("g"));
+    let fields: &[ir::ObjectField<'_>] = arena.alloc_slice(&[
+        ir::ObjectField { name: ir::FieldName::Fix(f), name_span: span, plus: false, visibility: ast::Visibility::Default, value: v },
+        ir::ObjectField { name: ir::FieldName::Dyn(k), name_span: span, plus: false, visibility: ast::Visibility::Hidden, value: w },
+    ]);
+    let e: &ir::Expr<'_> = arena.alloc(ir::Expr::Object { is_top: true, locals: &[], asserts: &[], fields });
+    let mut ev = bare_evaluator(&mut program);
+    let r = ev.do_expr(e, env.clone());
+    assert!(r.is_ok() && ev.value_stack.is_empty());
+    assert!(ev.object_stack.len() == 1, "a new object is under construction");
+    let layer = &ev.object_stack[0].self_layer;
+    assert!(matches!(&layer.base_env, Some(b) if b.kani_points_to(&env)), "its layer environment derives from the current environment");
+    assert!(layer.env.get().is_none(), "and is not created before it is needed");
+    // executed from the top: f (fixed), then the name expression of the second field, then the computed field, then the finish
+    assert!(ev.state_stack.len() == 4);
+    assert!(matches!(&ev.state_stack[0], State::ObjectToValue));
+    assert!(matches!(&ev.state_stack[3], State::ObjectFixField { name, base_env: None, value, visibility: ast::Visibility::Default, plus: false, .. }
+        if *name == f && core::ptr::eq(*value, v)), "the fixed field first, without a private environment");
+    assert!(is_expr_state(&ev.state_stack[2], k, &env), "the computed name is evaluated in the ENCLOSING environment");
+    assert!(matches!(&ev.state_stack[1], State::ObjectDynField { base_env: None, value, visibility: ast::Visibility::Hidden, plus: false, .. }
+        if core::ptr::eq(*value, w)), "the computed field also without a private environment");
+    kani::cover!(true, "object literal");
+    core::mem::forget(r);
+    core::mem::forget(ev);
+    core::mem::forget(program);
+    core::mem::forget(env);
+}
+}
+
+// @harness id=c04_object_assert_env_shared props=C04,C02 tier=quick cap=2400
+// @desc Program::get_object_assert_env and Program::find_object_field_thunk on a fresh one-layer object with one delayed field: the environment an object assert is evaluated in IS the environment of the layer's fields (the same object, whichever is asked for first), so that an object local used by an assert and by a field is evaluated once
+// @bound a one-layer object with one field whose value is a variable reference
+// @funcs Program::get_object_assert_env, Program::find_object_field_thunk, Program::get_object_layer_env, Program::init_object_env
+eval_stubs! {
+#[kani::proof]
+#[kani::unwind(6)]
+fn c04_object_assert_env_shared() {
+    let arena = Arena::new();
+    let mut program = bare_program(&arena);
+    let span = a_span(&mut program);
+    let f = program.str_interner.intern(&arena, "f");
+    let x = program.str_interner.intern(&arena, "x");
+    let env = env_with(None, &[]);
+    let fexpr: &ir::Expr<'_> = arena.alloc(ir::Expr::Var(x, span));
+    let mut slots: [Option<(InternedStr<'_>, ObjectField<'_>)>; 4] = [None, None, None, None];
+    slots[0] = Some((f, ObjectField::Normal(ObjectFieldData { base_env: None, visibility: ast::Visibility::Default, expr: Some((fexpr, false)), thunk: OnceCell::new() })));
+    let obj: GcView<ObjectData<'_>> = GcView::kani_unmanaged(ObjectData {
+        self_layer: ObjectLayer { is_top: true, locals: &[], base_env: Some(Gc::from(&env)), env: OnceCell::new(), fields: FHashMap::kani_from_slots(slots), asserts: &[] },
+        super_layers: Vec::new(),
+        fields_order: OnceCell::new(),
+        asserts_checked: Cell::new(false),
+    });
+    let assert_first: bool = kani::any();
+    let (aenv, fthunk) = if assert_first {
+        let a = program.get_object_assert_env(&obj, 0, 0);
+        let t = program.find_object_field_thunk(&obj, 0, f).unwrap();
+        (a, t)
+    } else {
+        let t = program.find_object_field_thunk(&obj, 0, f).unwrap();
+        let a = program.get_object_assert_env(&obj, 0, 0);
+        (a, t)
+    };
+    let same = matches!(&*fthunk.state(), ThunkState::Pending(PendingThunk::Expr { env: te, .. }) if te.kani_points_to(&aenv));
+    assert!(same, "asserts and fields of a layer share one environment");
+    kani::cover!(assert_first, "assert environment requested first");
+    kani::cover!(!assert_first, "field requested first");
+    core::mem::forget((aenv, fthunk));
+    core::mem::forget(program);
+    core::mem::forget((obj, env));
+}
+}
